@@ -135,6 +135,35 @@ def _check_then_create_at(ctx, pt) -> int:
     return n
 
 
+def _import_time_only(prog, mm, qual) -> bool:
+    """is the module-level function `qual` of module mm used only at import time: called / applied as a decorator at the top level
+    of modules, and never from inside a function body (nor handed around as a value)?"""
+    if "." in qual:
+        return False
+    top_uses = inner_uses = 0
+    for m2 in prog.modules.values():
+        names = {a for a, t in m2.imports.items() if prog.resolve(t) == (mm.name, qual)}
+        if m2 is mm:
+            names.add(qual)
+        if not names:
+            continue
+        inside = set()
+        for f in m2.functions.values():
+            for n in ast.walk(f):
+                if isinstance(n, ast.Name) and n.id in names and n is not f:
+                    inside.add(id(n))
+            for d in getattr(f, "decorator_list", []):
+                for n in ast.walk(d):
+                    inside.discard(id(n))  # a decorator expression is evaluated where the def statement stands
+        for n in ast.walk(m2.tree):
+            if isinstance(n, ast.Name) and n.id in names and isinstance(n.ctx, ast.Load):
+                if id(n) in inside:
+                    inner_uses += 1
+                else:
+                    top_uses += 1
+    return top_uses > 0 and inner_uses == 0
+
+
 def rule_shared_state(ctx):
     prog = ctx.prog
     from .c17 import session_table
@@ -158,6 +187,8 @@ def rule_shared_state(ctx):
             written = False
             for mm in prog.modules.values():
                 for q, fn in mm.functions.items():
+                    if _import_time_only(prog, mm, q):
+                        continue  # a registry filled while the module is imported (`stage(fn)`, `@post(path)`): not run-time state
                     for n in ast.walk(fn):
                         if isinstance(n, (ast.Assign, ast.AugAssign)):
                             tg = n.targets if isinstance(n, ast.Assign) else [n.target]
